@@ -25,7 +25,7 @@ def corpus():
         "abc", "1/2", "1/0", "0/1", "-3/4", "1+2j", "j", "1j", "(1+2j)", "é", "١٢", "１２", "\x00", "a\nb", "𝟙",
         "2020-01-02", "2020-01-02T03:04:05", "2020-01-02 03:04:05+00:00", "03:04:05", "24:00", "2020-13-01",
         "0000-00-00", "2020-01-02T25:00:00", "20200102", "2020-W01-1",
-        "YQ==", "YQ=", "YQ", "=", "====", "a", "ab", "abc=", "YWJj", "Y Q==", "YQ==\n", "!!!!",
+        "YQ==", "YQ=", "YQ", "=", "====", "a", "ab", "abc=", "YWJj", "Y Q==", "YQ==\n", "!!!!", "YW_Jj", "____", "YQ-_", "YWJj=", "YWJ==",
         "a+", "(", "[", "a{2,1}", "a{99999999999}", "(?P<n>a)(?P<n>b)", "\\", "*", "a**", "(?i)a", "x" * 300,
         "1.2.3.4", "1.2.3.4/24", "1.2.3.4/33", "256.1.1.1", "1.2.3", "::1", "::1/64", "::1/129", "fe80::1%eth0", ":::",
         "1.2.3.0/24", "::/64", "1.2.3.4/255.255.255.0",
